@@ -719,6 +719,9 @@ func c01Run(c *Ctx, r *zsimrt.Run) {
 		class = "A-cycle"
 	} else if r.Chance("remote", 1, 5) {
 		addRemote(g, L)
+	} else if r.Chance("dense-dag", 1, 30) {
+		addDenseDAG(g, L)
+		class = "A-dense"
 	}
 	switch r.Draw("entry", 10) {
 	case 0:
